@@ -125,6 +125,15 @@ func (r *Registry) PushManifest(ctx context.Context, repoName string, tag string
 			}
 		}
 	}
+	if r.cfg.ImmutableTags {
+		// What a tag refers to is found by walking each stored manifest with its
+		// stored media type, so a push must not change the media type a manifest
+		// is stored with: otherwise re-pushing a tagged manifest's bytes under
+		// another media type would hide its references and let them be deleted.
+		if curr := repo.manifests[dig]; curr != nil && curr.mediaType != mediaType {
+			return ociregistry.Descriptor{}, fmt.Errorf("%w: mismatched media type", ociregistry.ErrDenied)
+		}
+	}
 	// make a copy of the data to avoid potential corruption.
 	data = append([]byte(nil), data...)
 	if err := CheckDescriptor(desc, data); err != nil {
